@@ -468,7 +468,14 @@ pub fn gen_dyn(r: &mut Rng, o: &DynOpts, depth: usize) -> Dyn {
                 Dyn::CollectChars(rand_text(r), r.next() as u8)
             }
         }
-        19 => Dyn::Bytes((0..r.range(0, 40)).map(|_| r.next() as u8).collect()),
+        19 => {
+            // byte strings of every small length and around the 64 / 128 / 256 block sizes
+            let n = match r.below(4) {
+                0 => *r.pick(&[63usize, 64, 65, 127, 128, 129, 191, 192, 193, 255, 256, 257, 300]),
+                _ => r.range(0, 40),
+            };
+            Dyn::Bytes((0..n).map(|_| r.next() as u8).collect())
+        }
         20 => Dyn::UnitStruct,
         21 => Dyn::UnitVariant(*r.pick(&["A", "B", "quote\"", "nl\n", "é"])),
         22 => Dyn::Some(Box::new(gen_dyn(r, o, depth + 1))),
